@@ -7,12 +7,15 @@ from __future__ import annotations
 
 DELIMITERS = [":", "/", "::", "_", "|"]
 
-# CURIE prefixes: case variants only over ASCII letters and letters for which
-# lower() == casefold(), so a case-insensitive model cannot disagree with any
-# legitimate implementation choice.
+# CURIE prefixes: case variants only between strings on which lower(), casefold() and upper() all
+# agree, so a case-insensitive model cannot disagree with any legitimate implementation choice.
 CURIE_PREFIXES = [
     "a", "A", "b", "B", "ab", "Ab", "aB", "go", "GO", "Go", "x1", "X1",
     "é", "É", "p.q", "n-1", "x_1", "c", "d", "e",
+    # letters whose lower() differs from their casefold() - only in relations on which every legitimate
+    # folding agrees: the identical string, and the pair that differs in an ordinary letter ("Maß" / "maß":
+    # equal under lower(), casefold() and upper() alike; no "mass", no "σ")
+    "maß", "Maß", "ς",
 ]
 RARE_CURIE_PREFIXES = ["", "a:b", "u", "h", "a+b", "c(1)", "x?", "p[0]", "m%s", "q{0}"]
 
@@ -24,7 +27,7 @@ URI_PREFIXES = [
     "v/", "v/x", "v/x_", "v/x_y", "V/", "V/x_",
     "h://e/", "h://e/a", "h://E/", "h://e/a_",
     "é", "é/", "\U0001d11e", "\U0001d11e/", "e\u0301",
-    "a:", "go:", "GO:", "w|", "w|q::",
+    "a:", "go:", "GO:", "w|", "w|q::", "u:maß/", "u:Maß/",
     # realistically long ones (longer than any plausible fixed-width head / bucket)
     "http:", "http://x.org/", "http://x.org/a", "http://x.org/a/b_", "http://y.org/", "https://x.org/",
     # names that are hostile to anything that treats a registered name as a pattern or a template
